@@ -190,17 +190,17 @@ Call(x) ==
 
 \* one named action per outcome of the check (failure paths are separate actions, so that
 \* TLC's per-action coverage shows that every branch of ImplCheck is exercised)
+\* (guards first: no outcome is computed for histories at the bound)
 WhyOf(x) == ImplCheck(x, assigned[x.t], incdec[x.t], sim[x.t]).why
-Accept(x)             == WhyOf(x) = "none" /\ Call(x)
-RejectSimEffects(x)   == WhyOf(x) = "sim-effects" /\ Call(x)
-RejectAssignIncDec(x) == WhyOf(x) = "assign-incdec" /\ Call(x)
-RejectAssignSim(x)    == WhyOf(x) = "assign-sim" /\ Call(x)
-RejectAssignAssign(x) == WhyOf(x) = "assign-assign" /\ Call(x)
-RejectIncDecAssign(x) == WhyOf(x) = "incdec-assign" /\ Call(x)
-RejectIncDecSim(x)    == WhyOf(x) = "incdec-sim" /\ Call(x)
+Accept(x)             == nops < MaxOps /\ WhyOf(x) = "none" /\ Call(x)
+RejectSimEffects(x)   == nops < MaxOps /\ WhyOf(x) = "sim-effects" /\ Call(x)
+RejectAssignIncDec(x) == nops < MaxOps /\ WhyOf(x) = "assign-incdec" /\ Call(x)
+RejectAssignSim(x)    == nops < MaxOps /\ WhyOf(x) = "assign-sim" /\ Call(x)
+RejectAssignAssign(x) == nops < MaxOps /\ WhyOf(x) = "assign-assign" /\ Call(x)
+RejectIncDecAssign(x) == nops < MaxOps /\ WhyOf(x) = "incdec-assign" /\ Call(x)
+RejectIncDecSim(x)    == nops < MaxOps /\ WhyOf(x) = "incdec-sim" /\ Call(x)
 
-Next == /\ nops < MaxOps       \* (first: no outcome is computed for histories at the bound)
-        /\ \E x \in UniverseSet :
+Next == \E x \in UniverseSet :
            \/ Accept(x) \/ RejectSimEffects(x) \/ RejectAssignIncDec(x) \/ RejectAssignSim(x)
            \/ RejectAssignAssign(x) \/ RejectIncDecAssign(x) \/ RejectIncDecSim(x)
 Spec == Init /\ [][Next]_vars
